@@ -2,6 +2,8 @@
 // (through the verif-tagged exports in pkg/tbtc) for EVERY member of a group on several orderings
 // of the same ready list and prints the cases for the Coq model (Model/C10.v).  Operators become
 // N identifiers by rank of their address string; member indexes stay as they are.
+// One-attempt cases build a fresh loop object per call; hist.go runs selection HISTORIES on one
+// long-lived loop object per member.
 package main
 
 import (
@@ -19,12 +21,17 @@ import (
 )
 
 type input struct {
-	Kind   string    `json:"kind"`   // "sign" | "dkg"
-	Ops    []string  `json:"ops"`    // operator address of every seat, in seat order
-	Count  int       `json:"count"`  // HonestThreshold (sign) / GroupQuorum (dkg)
-	Msg    string    `json:"msg"`    // decimal: signed message / DKG seed
-	Att    uint      `json:"att"`    // attemptCounter
-	Readys [][]int   `json:"readys"` // orderings of one ready list; the first is the reference
+	Kind   string   `json:"kind,omitempty"`   // "sign" | "dkg"
+	Ops    []string `json:"ops,omitempty"`    // operator address of every seat, in seat order
+	Count  int      `json:"count,omitempty"`  // HonestThreshold (sign) / GroupQuorum (dkg)
+	Msg    string   `json:"msg,omitempty"`    // decimal: signed message / DKG seed
+	Att    uint     `json:"att,omitempty"`    // attemptCounter
+	Readys [][]int  `json:"readys,omitempty"` // orderings of one ready list; the first is the reference
+	Hist   *histIn  `json:"hist,omitempty"`   // a selection history (hist.go); the other fields are unused then
+}
+
+func mkIn(kind string, ops []string, count int, msg string, att uint, readys [][]int) input {
+	return input{Kind: kind, Ops: ops, Count: count, Msg: msg, Att: att, Readys: readys}
 }
 
 func classify(err error) string {
@@ -160,7 +167,7 @@ func run(in input, em *lib.Emitter, id string) {
 	if in.Kind == "dkg" {
 		kind = "KDkg"
 	}
-	coq := fmt.Sprintf("{| c_kind := %s; c_ops := %s; c_count := %s; c_seed := %s; c_att := %s; c_readys := %s; c_outs := %s; c_qual := %s |}",
+	coq := fmt.Sprintf("(Concrete.COne {| c_kind := %s; c_ops := %s; c_count := %s; c_seed := %s; c_att := %s; c_readys := %s; c_outs := %s; c_qual := %s |})",
 		kind, lib.ListN(ids), lib.N(uint64(in.Count)), lib.Z(seed), lib.N(uint64(in.Att)),
 		lib.List(readys), lib.List(distinct), lib.ListN(qual))
 
@@ -294,7 +301,11 @@ func main() {
 			fmt.Fprintln(os.Stderr, err)
 			os.Exit(2)
 		}
-		run(in, em, "replay")
+		if in.Hist != nil {
+			runHist(*in.Hist, em, "replay")
+		} else {
+			run(in, em, "replay")
+		}
 		em.Close("replay", nil)
 		return
 	}
@@ -306,23 +317,113 @@ func main() {
 		a, b, c, d := addr(r), addr(r), addr(r), addr(r)
 		g := []string{a, b, b, c, c, c, d, a, c, b}
 		all := []int{1, 2, 3, 4, 5, 6, 7, 8, 9, 10}
-		run(input{"sign", g, 6, "12345", 1, orderings(r, all, 2)}, em, "corpus-sign-all-ready-trim")
-		run(input{"sign", g, 6, "12345", 4, orderings(r, []int{2, 3, 4, 5, 6, 9, 10}, 2)}, em, "corpus-sign-subset")
-		run(input{"sign", g, 6, "777", 2, orderings(r, []int{1, 4, 5, 6, 7, 9}, 2)}, em, "corpus-sign-exact")
-		run(input{"sign", g, 6, "777", 2, orderings(r, []int{1, 4, 5, 6, 7}, 1)}, em, "corpus-sign-too-few")
-		run(input{"dkg", g, 6, "99", 1, orderings(r, []int{1, 2, 4, 5, 6, 7, 9}, 2)}, em, "corpus-dkg-first")
-		run(input{"dkg", g, 6, "99", 2, orderings(r, all, 2)}, em, "corpus-dkg-retry1")
-		run(input{"dkg", g, 6, "99", 9, orderings(r, all, 2)}, em, "corpus-dkg-retry8")
-		run(input{"dkg", g, 6, "99", 400, orderings(r, all, 1)}, em, "corpus-dkg-retries-used-up")
-		run(input{"dkg", g, 6, "99", 3, orderings(r, []int{1, 2, 3, 7, 8}, 1)}, em, "corpus-dkg-too-few")
-		run(input{"sign", g, 6, "5", 1, [][]int{{1, 2, 3, 3, 4, 5, 6}, {3, 1, 2, 4, 3, 5, 6}}}, em, "corpus-sign-dup-ready")
-		run(input{"sign", g, 6, "5", 1, [][]int{{0, 1, 2, 3, 4, 5, 6}}}, em, "corpus-sign-index0")
-		run(input{"dkg", g, 6, "5", 2, [][]int{{1, 2, 3, 4, 5, 6, 11}}}, em, "corpus-dkg-index-above")
+		run(mkIn("sign", g, 6, "12345", 1, orderings(r, all, 2)), em, "corpus-sign-all-ready-trim")
+		run(mkIn("sign", g, 6, "12345", 4, orderings(r, []int{2, 3, 4, 5, 6, 9, 10}, 2)), em, "corpus-sign-subset")
+		run(mkIn("sign", g, 6, "777", 2, orderings(r, []int{1, 4, 5, 6, 7, 9}, 2)), em, "corpus-sign-exact")
+		run(mkIn("sign", g, 6, "777", 2, orderings(r, []int{1, 4, 5, 6, 7}, 1)), em, "corpus-sign-too-few")
+		run(mkIn("dkg", g, 6, "99", 1, orderings(r, []int{1, 2, 4, 5, 6, 7, 9}, 2)), em, "corpus-dkg-first")
+		run(mkIn("dkg", g, 6, "99", 2, orderings(r, all, 2)), em, "corpus-dkg-retry1")
+		run(mkIn("dkg", g, 6, "99", 9, orderings(r, all, 2)), em, "corpus-dkg-retry8")
+		run(mkIn("dkg", g, 6, "99", 400, orderings(r, all, 1)), em, "corpus-dkg-retries-used-up")
+		run(mkIn("dkg", g, 6, "99", 3, orderings(r, []int{1, 2, 3, 7, 8}, 1)), em, "corpus-dkg-too-few")
+		run(mkIn("sign", g, 6, "5", 1, [][]int{{1, 2, 3, 3, 4, 5, 6}, {3, 1, 2, 4, 3, 5, 6}}), em, "corpus-sign-dup-ready")
+		run(mkIn("sign", g, 6, "5", 1, [][]int{{0, 1, 2, 3, 4, 5, 6}}), em, "corpus-sign-index0")
+		run(mkIn("dkg", g, 6, "5", 2, [][]int{{1, 2, 3, 4, 5, 6, 11}}), em, "corpus-dkg-index-above")
 		// production-size group: 100 seats, threshold 51, quorum 90
 		counts := []int{20, 15, 10, 10, 8, 7, 5, 5, 5, 4, 3, 3, 2, 1, 1, 1}
 		big100 := layout(r, counts)
-		run(input{"sign", big100, 51, msgOf(r), 3, orderings(r, subset(r, 100, 80), 1)}, em, "corpus-sign-100")
-		run(input{"dkg", big100, 90, msgOf(r), 5, orderings(r, subset(r, 100, 97), 1)}, em, "corpus-dkg-100")
+		run(mkIn("sign", big100, 51, msgOf(r), 3, orderings(r, subset(r, 100, 80), 1)), em, "corpus-sign-100")
+		run(mkIn("dkg", big100, 90, msgOf(r), 5, orderings(r, subset(r, 100, 97), 1)), em, "corpus-dkg-100")
+	}
+
+	// --- corpus histories: ONE loop object per member, consecutive attempts, changing ready sets
+	{
+		ops10 := []string{"address-1", "address-2", "address-8", "address-4", "address-2", "address-6",
+			"address-7", "address-8", "address-9", "address-8"}
+		all := []int{1, 2, 3, 4, 5, 6, 7, 8, 9, 10}
+		// members 1 and 3 announce readiness for attempt 1 only; member 4 goes through both
+		// attempts, member 6 was not there for attempt 1
+		runHist(histIn{"sign", ops10, 6, "1", []stepIn{{1, all}, {2, []int{2, 4, 5, 6, 7, 8, 9, 10}}},
+			[]memberIn{{4, 0}, {6, 1}}}, em, "corpus-hist-sign-two-drop-out-late-member")
+		runHist(histIn{"sign", ops10, 6, "12345", []stepIn{{1, all}, {2, []int{1, 2, 4, 6, 7, 9, 10}}, {3, []int{1, 2, 3, 4, 5, 6, 7, 9}},
+			{4, []int{3, 5, 6, 7, 8, 10}}}, []memberIn{{7, 0}, {10, 2}, {6, 3}, {2, 1}}}, em, "corpus-hist-sign-drop-and-come-back")
+		runHist(histIn{"dkg", ops10, 6, "99", []stepIn{{1, all}, {2, []int{1, 2, 4, 5, 6, 7, 9, 10}}, {3, []int{1, 2, 3, 4, 6, 7, 8, 9, 10}}},
+			[]memberIn{{1, 0}, {9, 1}, {5, 2}}}, em, "corpus-hist-dkg-drop-and-come-back")
+		runHist(histIn{"dkg", ops10, 8, "7", []stepIn{{3, all}, {4, []int{1, 2, 3, 5, 6, 7, 8, 10}}, {6, []int{1, 2, 3, 5, 6, 7, 8}}},
+			[]memberIn{{2, 0}, {3, 1}}}, em, "corpus-hist-dkg-ends-too-few")
+	}
+	// --- small-scope histories: up to 5 seats, random layout, 2-3 attempts over arbitrary ready
+	// subsets, EVERY member has its own loop object and joins at a random attempt
+	nSmallHist := o.Count(50, 3000)
+	for i := 0; i < nSmallHist; i++ {
+		r := rng.Fork(fmt.Sprintf("smallhist%d", i))
+		n := r.Range(2, 5)
+		names := []string{addr(r), addr(r), addr(r)}
+		g := make([]string, n)
+		for j := range g {
+			g[j] = names[r.Intn(len(names))]
+		}
+		kind := []string{"sign", "dkg"}[i%2]
+		h := histIn{Kind: kind, Ops: g, Count: r.Range(0, n), Msg: msgOf(r)}
+		att := uint(1 + r.Intn(3))
+		for j, ns := 0, r.Range(2, 3); j < ns; j++ {
+			var set []int
+			mask := r.Intn(1 << n)
+			if j == 0 && r.Chance(1, 2) {
+				mask = 1<<n - 1
+			}
+			for b := 0; b < n; b++ {
+				if mask&(1<<b) != 0 {
+					set = append(set, b+1)
+				}
+			}
+			h.Steps = append(h.Steps, stepIn{att, set})
+			att++
+		}
+		first := r.Intn(n)
+		for m := 0; m < n; m++ {
+			skip := r.Intn(len(h.Steps))
+			if m == first {
+				skip = 0
+			}
+			h.Members = append(h.Members, memberIn{m + 1, skip})
+		}
+		runHist(h, em, fmt.Sprintf("smallhist-%d", i))
+	}
+	// --- random histories on groups with skewed seat distributions
+	nHist := o.Count(70, 4000)
+	for i := 0; i < nHist; i++ {
+		r := rng.Fork(fmt.Sprintf("hist%d", i))
+		nOps := r.Range(2, 8)
+		counts := make([]int, nOps)
+		for j := range counts {
+			counts[j] = []int{1, r.Range(1, 3), r.Range(1, 6)}[r.Intn(3)]
+		}
+		if i%25 == 11 { // production-size group: 100 seats
+			counts = []int{20, 15, 10, 10, 8, 7, 5, 5, 5, 4, 3, 3, 2, 1, 1, 1}
+		}
+		g := layout(r, counts)
+		n := len(g)
+		kind := "sign"
+		count := n/2 + 1
+		if i%2 == 1 {
+			// key generation retries exclude whole operators: many small operators and a quorum
+			// with slack, otherwise nearly every later attempt fails
+			kind = "dkg"
+			if i%25 != 11 {
+				counts = make([]int, r.Range(5, 12))
+				for j := range counts {
+					counts[j] = r.Range(1, 2)
+				}
+				g = layout(r, counts)
+				n = len(g)
+			}
+			count = n - n/3
+		}
+		if r.Chance(1, 8) {
+			count = r.Range(1, n)
+		}
+		runHist(genHist(r, kind, g, count), em, fmt.Sprintf("hist-%d", i))
 	}
 
 	// --- exhaustive small scope: up to 5 seats, every operator layout (restricted growth
@@ -382,7 +483,7 @@ func main() {
 				set = append(set, j+1)
 			}
 		}
-		run(input{sc.kind, g, sc.count, msgOf(r), sc.att, orderings(r, set, 1)}, em, fmt.Sprintf("small-%d", i))
+		run(mkIn(sc.kind, g, sc.count, msgOf(r), sc.att, orderings(r, set, 1)), em, fmt.Sprintf("small-%d", i))
 	}
 
 	// --- random groups with skewed seat distributions
@@ -466,9 +567,13 @@ func main() {
 			}
 			readys = [][]int{bad, sh}
 		}
-		run(input{kind, g, count, msgOf(r), att, readys}, em, fmt.Sprintf("rand-%d", i))
+		run(mkIn(kind, g, count, msgOf(r), att, readys), em, fmt.Sprintf("rand-%d", i))
 	}
 	em.Close("a case is one (group layout, threshold/quorum, message, attempt, ready list): the selection is run for "+
+		"every member index of the group on every ordering of the ready list (ascending, reversed, random) - or a HISTORY: "+
+		"2-5 consecutive attempts with changing ready sets, several members of the wallet each on its OWN long-lived "+
+		"loop object, some joining at a later attempt; non-trivial history: ready sets of group members, a member drops "+
+		"out between two attempts and some member was not there for the first attempt.  One-attempt cases: selection for "+
 		"every member index of the group on every ordering of the ready list (ascending, reversed, random); distinct by "+
 		"(kind, canonical group, count, attempt seed, attempt, ready list); non-trivial when the ready list is a proper "+
 		"subset of the group's members given in >= 2 orderings and operators hold different numbers of seats", nil)
